@@ -4,7 +4,7 @@ From Coq Require Import ZifyN ZifyNat ZifyBool.
 From RecordUpdate Require Import RecordSet.
 From V Require Import Base.U64 Ssz.SszCore Beacon.Config Beacon.State Beacon.Spec.Helpers Beacon.Spec.Epoch.
 From V Require Import Beacon.Impl.Flat Beacon.Impl.Justification Beacon.Impl.AltairAttester Beacon.Impl.Phase0Attester.
-From V Require Import Beacon.Refine.ListLemmas Beacon.Refine.FoldLemmas Beacon.Refine.OpsLemmas Beacon.Refine.JustificationRefine.
+From V Require Import Beacon.Refine.ListLemmas Beacon.Refine.FoldLemmas Beacon.Refine.OpsLemmas Beacon.Refine.JustificationRefine Beacon.Refine.AltairRefine.
 Import ListNotations RecordSetNotations.
 Local Open Scope N_scope.
 Ltac Zify.zify_post_hook ::= Z.div_mod_to_equations.
@@ -615,3 +615,788 @@ Section P0Data.
     - rewrite unsl_sel_target. unfold f_ct, un. fold rootC. apply andb_comm.
   Qed.
 End P0Data.
+
+(* ---- zrnt's loop of AttestationRewardsAndPenalties: eight independent sequences of point additions ---- *)
+Section GoLoop.
+  Variable c : Config.
+  Variables total src_stake tgt_stake head_stake sqrt fd quotient : N.
+  Variable leak : bool.
+  Definition elt := (N * (AttesterStatus * FlatValidator))%type.
+  Definition e_i (x : elt) : N := fst x.
+  Definition e_f (x : elt) : AttFlags := as_flags (fst (snd x)).
+  Definition e_eff (x : elt) : N := fl_effective_balance (snd (snd x)).
+  Definition e_base (x : elt) : N := mul64 (e_eff x) (BASE_REWARD_FACTOR c) / sqrt / BASE_REWARDS_PER_EPOCH.
+  Definition e_pr (x : elt) : N := e_base x / PROPOSER_REWARD_QUOTIENT c.
+  Definition e_su (x : elt) : bool := fg_prev_source (e_f x) && fg_unslashed (e_f x).
+  Definition e_tu (x : elt) : bool := fg_prev_target (e_f x) && fg_unslashed (e_f x).
+  Definition e_hu (x : elt) : bool := fg_prev_head (e_f x) && fg_unslashed (e_f x).
+  Definition e_el (x : elt) : bool := fg_eligible (e_f x).
+  Definition e_comp_r (sel : elt -> bool) (stake : N) (x : elt) : ops :=
+    if e_el x && sel x then [(e_i x, if leak then e_base x else mul64 (e_base x) stake / total)] else [].
+  Definition e_comp_p (sel : elt -> bool) (x : elt) : ops :=
+    if e_el x && negb (sel x) then [(e_i x, e_base x)] else [].
+  Definition e_incl_r (x : elt) : ops :=
+    if e_su x then [(as_attested_proposer (fst (snd x)), e_pr x);
+                    (e_i x, (e_base x - e_pr x) / as_inclusion_delay (fst (snd x)))] else [].
+  Definition e_ina_p (x : elt) : ops :=
+    if e_el x && leak
+    then (e_i x, sub64 (mul64 BASE_REWARDS_PER_EPOCH (e_base x)) (e_pr x)) ::
+         (if negb (e_tu x) then [(e_i x, mul64 (e_eff x) fd / quotient)] else [])
+    else [].
+
+  Definition d5_apply (d : Deltas5) (L : list elt) : Deltas5 :=
+    mkD5 (mkDeltas (foldops64 (flat_map (e_comp_r e_su src_stake) L) (d_rewards (d5_source d)))
+                   (foldops64 (flat_map (e_comp_p e_su) L) (d_penalties (d5_source d))))
+         (mkDeltas (foldops64 (flat_map (e_comp_r e_tu tgt_stake) L) (d_rewards (d5_target d)))
+                   (foldops64 (flat_map (e_comp_p e_tu) L) (d_penalties (d5_target d))))
+         (mkDeltas (foldops64 (flat_map (e_comp_r e_hu head_stake) L) (d_rewards (d5_head d)))
+                   (foldops64 (flat_map (e_comp_p e_hu) L) (d_penalties (d5_head d))))
+         (mkDeltas (foldops64 (flat_map e_incl_r L) (d_rewards (d5_inclusion d))) (d_penalties (d5_inclusion d)))
+         (mkDeltas (d_rewards (d5_inactivity d)) (foldops64 (flat_map e_ina_p L) (d_penalties (d5_inactivity d)))).
+
+  Lemma d5_apply_nil d : d5_apply d [] = d.
+  Proof. destruct d as [[? ?] [? ?] [? ?] [? ?] [? ?]]. reflexivity. Qed.
+
+  Lemma go_rewards_loop :
+    sqrt <> 0 -> PROPOSER_REWARD_QUOTIENT c <> 0 -> total <> 0 -> quotient <> 0 ->
+    forall (L : list elt) (d : Deltas5),
+    (forall x, In x L -> e_su x = true ->
+       as_inclusion_delay (fst (snd x)) <> 0 /\ as_attested_proposer (fst (snd x)) < N.of_nat (length (d_rewards (d5_inclusion d)))) ->
+    fold_left (rewards_step c total src_stake tgt_stake head_stake sqrt fd quotient leak) L (Some d) = Some (d5_apply d L).
+  Proof.
+    intros Hsq Hprq Htot Hq. induction L as [|x L IH]; intros d Hside.
+    - cbn [fold_left]. rewrite d5_apply_nil. reflexivity.
+    - cbn [fold_left]. destruct x as [i [status fl]].
+      assert (Hstep : rewards_step c total src_stake tgt_stake head_stake sqrt fd quotient leak (Some d) (i, (status, fl)) =
+                      Some (d5_apply d [(i, (status, fl))])).
+      { unfold rewards_step, component_step. destruct (N.eqb_spec sqrt 0); [contradiction|].
+        fold (e_base (i, (status, fl))). set (x := (i, (status, fl))) in *.
+        change (fl_effective_balance fl) with (e_eff x).
+        change (fg_prev_source (as_flags status) && fg_unslashed (as_flags status)) with (e_su x).
+        change (fg_prev_target (as_flags status) && fg_unslashed (as_flags status)) with (e_tu x).
+        change (fg_prev_head (as_flags status) && fg_unslashed (as_flags status)) with (e_hu x).
+        change (fg_eligible (as_flags status)) with (e_el x).
+        destruct (N.eqb_spec (PROPOSER_REWARD_QUOTIENT c) 0); [contradiction|].
+        destruct (N.eqb_spec total 0); [contradiction|]. destruct (N.eqb_spec quotient 0); [contradiction|]. cbn [orb].
+        unfold d5_apply. cbn [flat_map app]. rewrite !app_nil_r.
+        unfold e_comp_r, e_comp_p, e_incl_r, e_ina_p. fold (e_pr x).
+        change (as_attested_proposer status) with (as_attested_proposer (fst (snd x))).
+        change (as_inclusion_delay status) with (as_inclusion_delay (fst (snd x))).
+        change i with (e_i x).
+        destruct (e_su x) eqn:Hsu.
+        - destruct (Hside x (or_introl eq_refl) Hsu) as [Hd Hp].
+          destruct (nthN_in_range _ _ Hp) as [y Hy]. rewrite Hy.
+          destruct (N.eqb_spec (as_inclusion_delay (fst (snd x))) 0); [contradiction|].
+          destruct (e_el x), (e_tu x), (e_hu x), leak; cbn [andb negb]; destruct d as [[? ?] [? ?] [? ?] [? ?] [? ?]]; reflexivity.
+        - destruct (e_el x), (e_tu x), (e_hu x), leak; cbn [andb negb]; destruct d as [[? ?] [? ?] [? ?] [? ?] [? ?]]; reflexivity. }
+      rewrite Hstep. rewrite IH.
+      + f_equal. unfold d5_apply. cbn [d5_source d5_target d5_head d5_inclusion d5_inactivity d_rewards d_penalties flat_map].
+        rewrite !app_nil_r, !foldops64_app. reflexivity.
+      + intros y Hy Hsu. destruct (Hside y (or_intror Hy) Hsu) as [H1 H2]. split; [exact H1|].
+        unfold d5_apply. cbn [d5_inclusion d_rewards]. rewrite foldops64_length. exact H2.
+  Qed.
+End GoLoop.
+
+(* ================= Part 5: gluing zrnt's loop to the spec's deltas ================= *)
+Lemma flat_map_ext_in {A B} (g h : A -> list B) l : (forall a, In a l -> g a = h a) -> flat_map g l = flat_map h l.
+Proof.
+  induction l as [|a l IH]; intros H; cbn [flat_map]; [reflexivity|]. rewrite (H a (or_introl eq_refl)), IH; [reflexivity|].
+  intros b Hb. apply H. right. exact Hb.
+Qed.
+
+Lemma flat_map_indexed {A B} (g : N * A -> list B) : forall (l : list A) k,
+  flat_map g (indexed_from k l) =
+  flat_map (fun i => match nth_error l (N.to_nat (i - k)) with Some x => g (i, x) | None => [] end) (seqN k (length l)).
+Proof.
+  induction l as [|x l IH]; intros k; [reflexivity|]. cbn [indexed_from flat_map length seqN].
+  rewrite N.sub_diag. cbn [N.to_nat nth_error]. f_equal. rewrite IH. apply flat_map_ext_in. intros i Hi. apply seqN_in in Hi.
+  replace (N.to_nat (i - k)) with (S (N.to_nat (i - (k + 1)))) by lia. reflexivity.
+Qed.
+Lemma nth_error_combine {A B} : forall (l1 : list A) (l2 : list B) j,
+  nth_error (combine l1 l2) j = match nth_error l1 j, nth_error l2 j with Some a, Some b => Some (a, b) | _, _ => None end.
+Proof.
+  induction l1 as [|a l1 IH]; intros [|b l2] [|j]; cbn [combine nth_error]; try reflexivity.
+  - destruct (nth_error l1 j); reflexivity.
+  - apply IH.
+Qed.
+Lemma add_lists_entry a b j : length a = length b -> entry (add_lists a b) j = entry a j + entry b j.
+Proof.
+  intros Hl. unfold entry, add_lists. rewrite !nthN_nth_error. revert b Hl. generalize (N.to_nat j). clear j.
+  induction a as [|x a IH]; intros j [|y b] Hl; cbn [length] in Hl; try lia.
+  - destruct j; reflexivity.
+  - destruct j as [|j]; cbn [combine map nth_error fst snd]; [reflexivity|]. apply IH. lia.
+Qed.
+Lemma add_lists_length a b : length a = length b -> length (add_lists a b) = length a.
+Proof. intros H. unfold add_lists. rewrite map_length, combine_length. lia. Qed.
+
+(* ================= Part 4: the attestation deltas ================= *)
+(* folds of conditional point additions over an index list, as ops *)
+Lemma foldops_cons i x o l : foldops ((i, x) :: o) l = foldops o (updN l i (fun y => y + x)).
+Proof. reflexivity. Qed.
+Lemma foldops_nil l : foldops [] l = l.
+Proof. reflexivity. Qed.
+Lemma foldops64_cons i x o l : foldops64 ((i, x) :: o) l = foldops64 o (updN l i (fun y => add64 y x)).
+Proof. reflexivity. Qed.
+Lemma flat_map_filter {A B} (g : A -> list B) (q : A -> bool) l :
+  flat_map g (filter q l) = flat_map (fun a => if q a then g a else []) l.
+Proof. induction l as [|a l IH]; cbn [filter flat_map]; [reflexivity|]. destruct (q a); cbn [flat_map app]; rewrite IH; reflexivity. Qed.
+
+(* a fold that adds to the rewards and to the penalties at each index = two ops folds *)
+Lemma pair_fold_ops (opsR opsP : N -> ops) (step : list N * list N -> N -> list N * list N) :
+  forall L, (forall r p i, In i L -> step (r, p) i = (foldops (opsR i) r, foldops (opsP i) p)) ->
+  forall r p, fold_left step L (r, p) = (foldops (flat_map opsR L) r, foldops (flat_map opsP L) p).
+Proof.
+  induction L as [|i L IH]; intros Hstep r p; cbn [fold_left flat_map]; [reflexivity|].
+  rewrite Hstep by (left; reflexivity). rewrite IH by (intros r' p' j Hj; apply Hstep; right; exact Hj).
+  rewrite !foldops_app. reflexivity.
+Qed.
+Lemma single_fold_ops (opsP : N -> ops) (step : list N -> N -> list N) :
+  forall L, (forall p i, In i L -> step p i = foldops (opsP i) p) ->
+  forall p, fold_left step L p = foldops (flat_map opsP L) p.
+Proof.
+  induction L as [|i L IH]; intros Hstep p; cbn [fold_left flat_map]; [reflexivity|].
+  rewrite Hstep by (left; reflexivity). rewrite IH by (intros p' j Hj; apply Hstep; right; exact Hj).
+  rewrite foldops_app. reflexivity.
+Qed.
+Section P0Deltas.
+  Variable E : Env.
+  Notation c := (cfg E).
+  Notation INC := (EFFECTIVE_BALANCE_INCREMENT c).
+  Variable st : BeaconState.
+  Variable committee_of : N -> N -> option (list N).
+  Let n := length (validators st).
+  Let pe := get_previous_epoch E st.
+  Let ce := get_current_epoch E st.
+  Let srcP := previous_epoch_attestations st.
+  Let total := get_total_active_balance E st.
+  Let leak := is_in_inactivity_leak E st.
+  Let base (i : N) : N := get_base_reward0 E st total i.
+  Let pr (i : N) : N := get_proposer_reward0 E st total i.
+  Let elig (i : N) : bool := match nth_error (validators st) (N.to_nat i) with Some v => spec_eligible pe v | None => false end.
+
+  Lemma eligible_filter_seqN :
+    get_eligible_validator_indices E st = filter elig (seqN 0 n).
+  Proof.
+    rewrite (AltairRefine.eligible_spec_idxs E st). rewrite idxs_filter_seqN. fold n. apply filter_ext. intros i. unfold elig. rewrite N.sub_0_r. reflexivity.
+  Qed.
+
+  (* ---- the spec's component deltas as ops over 0..n-1 ---- *)
+  Definition comp_amount (att_bal : N) (i : N) : N :=
+    if leak then base i else base i * (att_bal / INC) / (total / INC).
+  Definition comp_ops_r (sel : N -> bool) (att_bal : N) (i : N) : ops :=
+    if elig i && sel i then [(i, comp_amount att_bal i)] else [].
+  Definition comp_ops_p (sel : N -> bool) (i : N) : ops :=
+    if elig i && negb (sel i) then [(i, base i)] else [].
+
+  Lemma component_deltas_ops atts :
+    (forall a, In a atts -> AttOk E st committee_of a) ->
+    let sel := unsl_sel E st atts in
+    let att_bal := N.max INC (sel_sum0 st sel 0 n) in
+    get_attestation_component_deltas E st atts =
+    Some (foldops (flat_map (comp_ops_r sel att_bal) (seqN 0 n)) (zeros st),
+          foldops (flat_map (comp_ops_p sel) (seqN 0 n)) (zeros st)).
+  Proof.
+    intros Hok sel att_bal. unfold get_attestation_component_deltas.
+    rewrite (unslashed_attesting_spec E st committee_of atts Hok). fold n. fold total leak.
+    assert (Hab : get_total_balance E st (filter (unsl_sel E st atts) (seqN 0 n)) = att_bal).
+    { unfold get_total_balance, att_bal, sel. rewrite sumN_filter_if. reflexivity. }
+    rewrite Hab. f_equal. rewrite eligible_filter_seqN.
+    rewrite (pair_fold_ops (fun i => if unsl_sel E st atts i then [(i, comp_amount att_bal i)] else [])
+                           (fun i => if unsl_sel E st atts i then [] else [(i, base i)])).
+    - rewrite !flat_map_filter. f_equal; f_equal; apply flat_map_ext; intros i; unfold comp_ops_r, comp_ops_p; fold sel;
+        destruct (elig i), (sel i); reflexivity.
+    - intros r p i Hi. apply filter_In in Hi. destruct Hi as [Hi _]. apply seqN_in in Hi.
+      unfold n. rewrite (memN_unsl E st committee_of atts i) by (fold n; lia).
+      unfold comp_amount. fold (base i). unfold base, get_base_reward0. fold total.
+      destruct (unsl_sel E st atts i); [destruct leak|]; reflexivity.
+  Qed.
+
+  (* ---- the spec's inclusion-delay deltas as ops ---- *)
+  Definition best_of (i : N) : option value := min_by_delay None (filter (in_att E st i) srcP).
+  Definition best_delay (i : N) : N := match best_of i with Some b => pa_inclusion_delay b | None => 0 end.
+  Definition best_prop (i : N) : N := match best_of i with Some b => pa_proposer_index b | None => 0 end.
+  Definition incl_ops (i : N) : ops :=
+    if f_ps E st i && un st i then [(best_prop i, pr i); (i, (base i - pr i) / best_delay i)] else [].
+
+  Lemma min_by_delay_in : forall l best b, min_by_delay best l = Some b -> best = Some b \/ In b l.
+  Proof.
+    induction l as [|a l IH]; intros best b H; cbn [min_by_delay] in H; [left; exact H|].
+    destruct best as [x|].
+    - destruct (pa_inclusion_delay a <? pa_inclusion_delay x); apply IH in H; destruct H as [H|H]; auto.
+      + inversion H; subst. right. left. reflexivity.
+      + right. right. exact H.
+      + right. right. exact H.
+    - apply IH in H. destruct H as [H|H]; [inversion H; subst; right; left; reflexivity|right; right; exact H].
+  Qed.
+  Lemma min_by_delay_some : forall l best, (best <> None \/ l <> []) -> exists b, min_by_delay best l = Some b.
+  Proof.
+    induction l as [|a l IH]; intros best H; cbn [min_by_delay].
+    - destruct H as [H|H]; [|contradiction]. destruct best as [x|]; [exists x; reflexivity|contradiction].
+    - destruct best as [x|]; [destruct (pa_inclusion_delay a <? pa_inclusion_delay x)|]; apply IH; left; discriminate.
+  Qed.
+
+  Lemma option_fold_ops (opsF : N -> ops) (F : list N -> N -> option (list N)) :
+    forall L, (forall r i, In i L -> F r i = Some (foldops (opsF i) r)) ->
+    forall r, fold_left (fun (acc : option (list N)) i => match acc with Some r => F r i | None => None end) L (Some r) =
+              Some (foldops (flat_map opsF L) r).
+  Proof.
+    induction L as [|i L IH]; intros HF r; cbn [fold_left flat_map]; [reflexivity|].
+    rewrite HF by (left; reflexivity). rewrite IH by (intros r' j Hj; apply HF; right; exact Hj). rewrite foldops_app. reflexivity.
+  Qed.
+
+  Lemma inclusion_deltas_ops :
+    GENESIS_EPOCH < ce ->
+    (forall a, In a srcP -> AttOk E st committee_of a) ->
+    get_inclusion_delay_deltas E st = Some (foldops (flat_map incl_ops (seqN 0 n)) (zeros st), zeros st).
+  Proof.
+    intros Hce Hok. unfold get_inclusion_delay_deltas. rewrite (matching_source_prev E st Hce). fold srcP.
+    rewrite (unslashed_attesting_spec E st committee_of srcP Hok). fold n.
+    rewrite (all_some_map_some _ (fun a => (a, att_parts E st a))).
+    2:{ intros a Ha. rewrite (attesting_indices_ok E st committee_of a (Hok a Ha)). reflexivity. }
+    fold total.
+    set (F := fun (r : list N) (i : N) =>
+                match min_by_delay None (map fst (filter (fun p : value * list N => memN i (snd p)) (map (fun a => (a, att_parts E st a)) srcP))) with
+                | Some a =>
+                    if negb (pa_inclusion_delay a =? 0)
+                    then Some (addN (addN r (pa_proposer_index a) (get_proposer_reward0 E st total i)) i
+                                    ((get_base_reward0 E st total i - get_proposer_reward0 E st total i) / pa_inclusion_delay a))
+                    else None
+                | None => None
+                end).
+    assert (Hfold : fold_left (fun (acc : option (list N)) i => match acc with Some r => F r i | None => None end)
+                      (filter (unsl_sel E st srcP) (seqN 0 n)) (Some (zeros st)) =
+                    Some (foldops (flat_map (fun i => [(best_prop i, pr i); (i, (base i - pr i) / best_delay i)])
+                                            (filter (unsl_sel E st srcP) (seqN 0 n))) (zeros st))).
+    { apply option_fold_ops. intros r i Hi. apply filter_In in Hi. destruct Hi as [_ Hsel].
+      unfold F.
+      assert (Hl : map fst (filter (fun p : value * list N => memN i (snd p)) (map (fun a => (a, att_parts E st a)) srcP)) =
+                   filter (in_att E st i) srcP).
+      { clear. induction srcP as [|a l IH]; cbn [map filter snd fst]; [reflexivity|]. unfold in_att at 1.
+        destruct (memN i (att_parts E st a)); cbn [map fst]; rewrite IH; reflexivity. }
+      rewrite Hl. unfold unsl_sel in Hsel. apply andb_prop in Hsel. destruct Hsel as [_ Hex].
+      assert (Hne : filter (in_att E st i) srcP <> []).
+      { apply existsb_exists in Hex. destruct Hex as [a [Ha Hia]]. intros Hnil.
+        assert (In a (filter (in_att E st i) srcP)) by (apply filter_In; split; assumption). rewrite Hnil in H. destruct H. }
+      destruct (min_by_delay_some _ None (or_intror Hne)) as [b Hb].
+      unfold best_prop, best_delay, best_of. rewrite Hb.
+      destruct (min_by_delay_in _ _ _ Hb) as [Hx|Hin]; [discriminate|]. apply filter_In in Hin. destruct Hin as [Hin _].
+      destruct (Hok b Hin) as [_ _ _ _ Hdelay]. destruct (N.eqb_spec (pa_inclusion_delay b) 0); [contradiction|]. cbn [negb].
+      reflexivity. }
+    unfold F in Hfold. rewrite Hfold. f_equal. f_equal. f_equal.
+    rewrite flat_map_filter. apply flat_map_ext. intros i. unfold incl_ops, unsl_sel, f_ps, un.
+    rewrite (andb_comm (existsb _ _)). reflexivity.
+  Qed.
+
+  (* ---- the spec's phase0 inactivity deltas as ops ---- *)
+  Let rootP := tgt_root E st pe.
+  Definition selT (i : N) : bool := unsl_sel E st (filter (att_tgt rootP) srcP) i.
+  Definition inact_ops (i : N) : ops :=
+    if elig i && leak
+    then (i, BASE_REWARDS_PER_EPOCH * base i - pr i) ::
+         (if selT i then [] else [(i, eff_bal st i * get_finality_delay E st / INACTIVITY_PENALTY_QUOTIENT c)])
+    else [].
+  Lemma inactivity_deltas0_ops :
+    GENESIS_EPOCH < ce -> (exists r, get_block_root E st pe = Some r) ->
+    (forall a, In a srcP -> AttOk E st committee_of a) ->
+    get_inactivity_penalty_deltas0 E st = Some (zeros st, foldops (flat_map inact_ops (seqN 0 n)) (zeros st)).
+  Proof.
+    intros Hce Hroot Hok. unfold get_inactivity_penalty_deltas0. fold leak pe. unfold inact_ops.
+    destruct leak.
+    - rewrite (matching_target_gen E st pe srcP (matching_source_prev E st Hce) Hroot). fold rootP.
+      assert (Hok' : forall a, In a (filter (att_tgt rootP) srcP) -> AttOk E st committee_of a)
+        by (intros a Ha; apply Hok; apply filter_In in Ha; apply Ha).
+      rewrite (unslashed_attesting_spec E st committee_of _ Hok'). fold n total.
+      f_equal. f_equal. rewrite eligible_filter_seqN.
+      rewrite (single_fold_ops (fun i => (i, BASE_REWARDS_PER_EPOCH * base i - pr i) ::
+                                        (if selT i then [] else [(i, eff_bal st i * get_finality_delay E st / INACTIVITY_PENALTY_QUOTIENT c)]))).
+      + rewrite flat_map_filter. f_equal. apply flat_map_ext. intros i. rewrite andb_true_r. reflexivity.
+      + intros p i Hi. apply filter_In in Hi. destruct Hi as [Hi _]. apply seqN_in in Hi.
+        unfold n. rewrite (memN_unsl E st committee_of _ i) by (fold n; lia). fold (selT i).
+        destruct (selT i); reflexivity.
+    - f_equal. f_equal. symmetry. clear. induction (seqN 0 n) as [|i l IH]; cbn [flat_map]; [reflexivity|].
+      rewrite andb_false_r. exact IH.
+  Qed.
+
+  (* ---------- the element zrnt's loop sees at index i ---------- *)
+  Definition elt_at (i : N) (v : Validator) : elt := (i, (final_status E st i (flatten v), flatten v)).
+
+  Hypothesis Hce : GENESIS_EPOCH < ce.
+  Hypothesis Hpe1 : pe + 1 < two64.
+  Hypothesis HokP : forall a, In a srcP -> AttOk E st committee_of a.
+
+  Lemma elt_flags i v : nthN (validators st) i = Some v ->
+    e_su (elt_at i v) = f_ps E st i && un st i /\
+    e_tu (elt_at i v) = f_pt E st i && un st i /\
+    e_hu (elt_at i v) = f_ph E st i && un st i /\
+    e_el (elt_at i v) = elig i /\
+    e_eff (elt_at i v) = eff_bal st i.
+  Proof.
+    intros Hv. unfold e_su, e_tu, e_hu, e_el, e_eff, e_f, elt_at. cbn [fst snd]. rewrite final_flags.
+    cbn [fg_prev_source fg_prev_target fg_prev_head fg_unslashed fg_eligible flatten fl_slashed fl_effective_balance].
+    assert (Hun : un st i = negb (v_slashed v)) by (unfold un, is_slashed; rewrite Hv; reflexivity).
+    rewrite <- Hun. repeat split.
+    - unfold elig. rewrite nthN_nth_error in Hv. rewrite Hv. unfold eligible_cond, spec_eligible. fold pe. rewrite add64_nw by exact Hpe1. reflexivity.
+    - unfold eff_bal. rewrite Hv. reflexivity.
+  Qed.
+
+  Hypothesis Hn : N.of_nat n < max64.
+
+  (* inclusion info of an attester *)
+  Lemma elt_inclusion i v : f_ps E st i = true ->
+    as_attested_proposer (final_status E st i (flatten v)) = best_prop i /\
+    as_inclusion_delay (final_status E st i (flatten v)) = best_delay i /\
+    best_delay i <> 0 /\ best_prop i < N.of_nat n.
+  Proof.
+    intros Hps. unfold final_status.
+    set (s1 := status_fold E st true true (tgt_root E st (get_previous_epoch E st)) (previous_epoch_attestations st) i
+                 (init_status (get_previous_epoch E st) (flatten v))).
+    destruct (status_fold_noincl E st false (tgt_root E st (get_current_epoch E st)) (current_epoch_attestations st) i s1) as [Hd Hp].
+    rewrite Hd, Hp.
+    assert (Hprop : forall a, In a srcP -> pa_proposer_index a <> VALIDATOR_INDEX_MARKER).
+    { intros a Ha. destruct (HokP a Ha) as [_ _ _ Hpr _]. unfold VALIDATOR_INDEX_MARKER. fold n in Hpr. lia. }
+    assert (Hinit : incl_rel (init_status (get_previous_epoch E st) (flatten v)) None) by (split; reflexivity).
+    pose proof (status_fold_incl E st true (tgt_root E st (get_previous_epoch E st)) srcP i _ None Hprop Hinit) as Hrel.
+    fold s1 in Hrel. rewrite <- min_by_delay_fold in Hrel. fold (best_of i) in Hrel.
+    assert (Hne : filter (in_att E st i) srcP <> []).
+    { unfold f_ps in Hps. apply existsb_exists in Hps. destruct Hps as [a [Ha Hia]]. intros Hnil.
+      assert (In a (filter (in_att E st i) srcP)) by (apply filter_In; split; assumption). rewrite Hnil in H. destruct H. }
+    destruct (min_by_delay_some _ None (or_intror Hne)) as [b Hb]. fold (best_of i) in Hb.
+    unfold best_prop, best_delay. rewrite Hb in *. destruct Hrel as [H1 [H2 _]].
+    destruct (min_by_delay_in _ _ _ Hb) as [Hx|Hin]; [discriminate|]. apply filter_In in Hin. destruct Hin as [Hin _].
+    destruct (HokP b Hin) as [_ _ _ Hpr Hdl]. fold n in Hpr. repeat split; assumption.
+  Qed.
+
+  (* ---------- numeric hypotheses ---------- *)
+  Definition all_eff : N := N.max INC (sumN (map (eff_bal st) (seqN 0 n))).
+  Record P0Bounds : Prop := mkP0Bounds {
+    pb_prq : PROPOSER_REWARD_QUOTIENT c <> 0;
+    pb_quot : INACTIVITY_PENALTY_QUOTIENT c <> 0;
+    pb_brf : forall i, i < N.of_nat n -> eff_bal st i * BASE_REWARD_FACTOR c < two64;
+    pb_comp : forall i, i < N.of_nat n -> base i * (all_eff / INC) < two64;
+    pb_fd : forall i, i < N.of_nat n -> eff_bal st i * get_finality_delay E st < two64;
+    pb_rows : forall R P, get_attestation_deltas E st = Some (R, P) ->
+              forall j, j < N.of_nat n -> entry (balances st) j + entry R j < two64 /\ entry P j < two64 }.
+
+  Hypothesis HB : P0Bounds.
+  Hypothesis Hinc : INC <> 0.
+  Let sq := N.sqrt total.
+  Let T := total / INC.
+  Let fd := get_finality_delay E st.
+  Let q := INACTIVITY_PENALTY_QUOTIENT c.
+
+  Lemma total_ge_inc : INC <= total.
+  Proof. unfold total, get_total_active_balance, get_total_balance. lia. Qed.
+  Lemma sq_pos : sq <> 0.
+  Proof.
+    unfold sq. intros H0. pose proof (N.sqrt_spec' total) as [_ Hhi]. rewrite H0 in Hhi. pose proof total_ge_inc. lia.
+  Qed.
+  Lemma T_pos : T <> 0.
+  Proof. unfold T. pose proof total_ge_inc. intros H0. assert (1 <= total / INC) by (apply N.div_le_lower_bound; lia). lia. Qed.
+
+  Lemma elt_base i v : nthN (validators st) i = Some v -> i < N.of_nat n ->
+    e_base c sq (elt_at i v) = base i /\ e_pr c sq (elt_at i v) = pr i.
+  Proof.
+    intros Hv Hi. destruct (elt_flags i v Hv) as [_ [_ [_ [_ Heff]]]].
+    assert (Hb : e_base c sq (elt_at i v) = base i).
+    { unfold e_base. rewrite Heff. rewrite mul64_nw by (apply (pb_brf HB); exact Hi).
+      unfold base, get_base_reward0, integer_squareroot, sq. reflexivity. }
+    split; [exact Hb|]. unfold e_pr. rewrite Hb. reflexivity.
+  Qed.
+
+  Lemma sel_sum0_le_all (sel : N -> bool) : N.max INC (sel_sum0 st sel 0 n) / INC <= all_eff / INC.
+  Proof.
+    apply N.div_le_mono; [exact Hinc|]. unfold all_eff.
+    assert (sel_sum0 st sel 0 n <= sumN (map (eff_bal st) (seqN 0 n))).
+    { unfold sel_sum0. apply sumN_le_seq. intros i. destruct (sel i); lia. }
+    lia.
+  Qed.
+
+  (* one component (source / target / head) *)
+  Lemma comp_ops_eq (gsel : elt -> bool) (ssel psel : N -> bool) i v :
+    nthN (validators st) i = Some v -> i < N.of_nat n ->
+    gsel (elt_at i v) = psel i -> (forall j, psel j = ssel j) ->
+    e_comp_r c T sq leak gsel (N.max INC (sel_sum0 st psel 0 n) / INC) (elt_at i v) = comp_ops_r ssel (N.max INC (sel_sum0 st ssel 0 n)) i /\
+    e_comp_p c sq gsel (elt_at i v) = comp_ops_p ssel i.
+  Proof.
+    intros Hv Hi Hg Hps. destruct (elt_flags i v Hv) as [_ [_ [_ [Hel _]]]]. destruct (elt_base i v Hv Hi) as [Hb _].
+    unfold e_comp_r, e_comp_p, comp_ops_r, comp_ops_p, comp_amount. rewrite Hel, Hg, Hb, Hps.
+    rewrite (sel_sum0_ext st psel ssel 0 n Hps). change (e_i (elt_at i v)) with i.
+    split; [|reflexivity].
+    destruct (elig i && ssel i); [|reflexivity]. destruct leak; [reflexivity|].
+    rewrite mul64_nw; [reflexivity|].
+    pose proof (pb_comp HB i Hi). pose proof (sel_sum0_le_all ssel). fold T. nia.
+  Qed.
+
+  Lemma incl_ops_eq i v : nthN (validators st) i = Some v -> i < N.of_nat n ->
+    e_incl_r c sq (elt_at i v) = incl_ops i.
+  Proof.
+    intros Hv Hi. destruct (elt_flags i v Hv) as [Hsu _]. destruct (elt_base i v Hv Hi) as [Hb Hp].
+    unfold e_incl_r, incl_ops. rewrite Hsu, Hb, Hp. change (e_i (elt_at i v)) with i.
+    destruct (f_ps E st i) eqn:Hps; cbn [andb]; [|reflexivity]. destruct (un st i); [|reflexivity].
+    destruct (elt_inclusion i v Hps) as [H1 [H2 _]]. unfold elt_at. cbn [fst snd]. rewrite H1, H2. reflexivity.
+  Qed.
+
+  Hypothesis Hfin : cp_epoch (finalized_checkpoint st) <= pe.
+
+  Lemma base_bounds i : i < N.of_nat n -> BASE_REWARDS_PER_EPOCH * base i < two64 /\ pr i <= BASE_REWARDS_PER_EPOCH * base i.
+  Proof.
+    intros Hi. pose proof (pb_brf HB i Hi) as Hb. pose proof sq_pos as Hs. fold sq in Hs.
+    unfold base, pr, get_proposer_reward0, get_base_reward0, BASE_REWARDS_PER_EPOCH, integer_squareroot. fold total sq.
+    set (x := eff_bal st i * BASE_REWARD_FACTOR c) in *.
+    assert (H1 : x / sq <= x) by (apply N.div_le_upper_bound; [exact Hs|nia]).
+    assert (H2 : 4 * (x / sq / 4) <= x / sq) by (apply N.mul_div_le; lia).
+    assert (H3 : x / sq / 4 / PROPOSER_REWARD_QUOTIENT c <= x / sq / 4).
+    { apply N.div_le_upper_bound; [exact (pb_prq HB)|]. pose proof (pb_prq HB) as Hq. revert Hq. generalize (PROPOSER_REWARD_QUOTIENT c). generalize (x / sq / 4). intros a b Hq. nia. }
+    generalize dependent (x / sq / 4 / PROPOSER_REWARD_QUOTIENT c). generalize dependent (x / sq / 4). generalize dependent (x / sq).
+    intros. split; lia.
+  Qed.
+
+  Lemma inact_ops_eq i v : nthN (validators st) i = Some v -> i < N.of_nat n ->
+    e_ina_p c sq fd q leak (elt_at i v) = inact_ops i.
+  Proof.
+    intros Hv Hi. destruct (elt_flags i v Hv) as [_ [Htu [_ [Hel Heff]]]]. destruct (elt_base i v Hv Hi) as [Hb Hp].
+    unfold e_ina_p, inact_ops. rewrite Hel, Htu, Hb, Hp, Heff. change (e_i (elt_at i v)) with i.
+    destruct (elig i && leak); [|reflexivity].
+    destruct (base_bounds i Hi) as [H4 Hpr].
+    rewrite mul64_nw by exact H4. rewrite sub64_ge by exact Hpr.
+    assert (HselT : selT i = un st i && f_pt E st i).
+    { unfold selT. rewrite unsl_sel_target. reflexivity. }
+    rewrite HselT, (andb_comm (un st i)). f_equal.
+    destruct (f_pt E st i && un st i); cbn [negb]; [reflexivity|].
+    rewrite mul64_nw by (apply (pb_fd HB); exact Hi). reflexivity.
+  Qed.
+
+  (* zrnt's loop list, element by element *)
+  Definition go_list : list elt :=
+    indexed (combine (statuses_of E st (flatten_validators (validators st))) (flatten_validators (validators st))).
+  Lemma go_list_flat_map (g : elt -> ops) (h : N -> ops) :
+    (forall i v, nthN (validators st) i = Some v -> i < N.of_nat n -> g (elt_at i v) = h i) ->
+    flat_map g go_list = flat_map h (seqN 0 n).
+  Proof.
+    intros Hgh. unfold go_list, indexed. unfold elt in *. rewrite flat_map_indexed.
+    assert (Hlen : length (combine (statuses_of E st (flatten_validators (validators st))) (flatten_validators (validators st))) = n).
+    { rewrite combine_length. unfold statuses_of. rewrite imap_length. unfold flatten_validators. rewrite map_length. fold n. lia. }
+    rewrite Hlen. apply flat_map_ext_in. intros i Hi. apply seqN_in in Hi. rewrite N.sub_0_r.
+    rewrite nth_error_combine. unfold statuses_of.
+    pose proof (nthN_imap (final_status E st) (flatten_validators (validators st)) i) as Him. rewrite !nthN_nth_error in Him. rewrite Him.
+    unfold flatten_validators. rewrite nth_error_map.
+    destruct (nth_error (validators st) (N.to_nat i)) as [v|] eqn:Hv.
+    - cbn [option_map]. apply Hgh; [rewrite nthN_nth_error; exact Hv|lia].
+    - apply nth_error_None in Hv. fold n in Hv. lia.
+  Qed.
+  Lemma go_list_side x : In x go_list -> e_su x = true ->
+    as_inclusion_delay (fst (snd x)) <> 0 /\ as_attested_proposer (fst (snd x)) < N.of_nat n.
+  Proof.
+    intros Hin Hsu. unfold go_list, indexed in Hin. destruct x as [i [s fl]].
+    apply indexed_from_fst_bounds in Hin. destruct Hin as [_ Hnth]. rewrite N.sub_0_r in Hnth.
+    rewrite nth_error_combine in Hnth. unfold statuses_of in Hnth.
+    pose proof (nthN_imap (final_status E st) (flatten_validators (validators st)) i) as Him. rewrite !nthN_nth_error in Him. rewrite Him in Hnth.
+    unfold flatten_validators in Hnth. rewrite nth_error_map in Hnth.
+    destruct (nth_error (validators st) (N.to_nat i)) as [v|] eqn:Hv; [|discriminate]. cbn [option_map] in Hnth. inversion Hnth; subst s fl.
+    assert (Hvn : nthN (validators st) i = Some v) by (rewrite nthN_nth_error; exact Hv).
+    destruct (elt_flags i v Hvn) as [Hsu' _]. fold (elt_at i v) in Hsu. rewrite Hsu' in Hsu. apply andb_prop in Hsu. destruct Hsu as [Hps _].
+    destruct (elt_inclusion i v Hps) as [H1 [H2 [H3 H4]]]. cbn [fst snd]. rewrite H1, H2. split; assumption.
+  Qed.
+
+  (* ---------- the five delta pairs of the spec, as arrays ---------- *)
+  Hypothesis Hroot : exists r, get_block_root E st pe = Some r.
+  Hypothesis Hsphr : SLOTS_PER_HISTORICAL_ROOT c <> 0.
+  Hypothesis Hbr : N.of_nat (length (block_roots st)) = SLOTS_PER_HISTORICAL_ROOT c.
+
+  Definition selS : N -> bool := unsl_sel E st srcP.
+  Definition selTg : N -> bool := unsl_sel E st (filter (att_tgt rootP) srcP).
+  Definition selH : N -> bool := unsl_sel E st (filter (att_head E st) (filter (att_tgt rootP) srcP)).
+  Definition bal_of (sel : N -> bool) : N := N.max INC (sel_sum0 st sel 0 n).
+  Definition Z := zeros st.
+  Definition Rs := foldops (flat_map (comp_ops_r selS (bal_of selS)) (seqN 0 n)) Z.
+  Definition Ps := foldops (flat_map (comp_ops_p selS) (seqN 0 n)) Z.
+  Definition Rt := foldops (flat_map (comp_ops_r selTg (bal_of selTg)) (seqN 0 n)) Z.
+  Definition Pt := foldops (flat_map (comp_ops_p selTg) (seqN 0 n)) Z.
+  Definition Rh := foldops (flat_map (comp_ops_r selH (bal_of selH)) (seqN 0 n)) Z.
+  Definition Ph := foldops (flat_map (comp_ops_p selH) (seqN 0 n)) Z.
+  Definition Rd := foldops (flat_map incl_ops (seqN 0 n)) Z.
+  Definition Pi := foldops (flat_map inact_ops (seqN 0 n)) Z.
+  Definition Rall := add_lists (add_lists (add_lists (add_lists Rs Rt) Rh) Rd) Z.
+  Definition Pall := add_lists (add_lists (add_lists (add_lists Ps Pt) Ph) Z) Pi.
+
+  Lemma spec_deltas_form : get_attestation_deltas E st = Some (Rall, Pall).
+  Proof.
+    unfold get_attestation_deltas. cbn [fst snd].
+    pose proof (matching_source_prev E st Hce) as Hsrc. fold pe srcP in Hsrc. fold pe. rewrite Hsrc.
+    rewrite (matching_target_gen E st pe srcP Hsrc Hroot). fold rootP.
+    rewrite (matching_head_gen E st committee_of pe srcP Hsrc Hroot HokP Hsphr Hbr). fold rootP.
+    assert (HokT : forall a, In a (filter (att_tgt rootP) srcP) -> AttOk E st committee_of a)
+      by (intros a Ha; apply HokP; apply filter_In in Ha; apply Ha).
+    assert (HokH : forall a, In a (filter (att_head E st) (filter (att_tgt rootP) srcP)) -> AttOk E st committee_of a)
+      by (intros a Ha; apply HokT; apply filter_In in Ha; apply Ha).
+    rewrite (component_deltas_ops srcP HokP), (component_deltas_ops _ HokT), (component_deltas_ops _ HokH).
+    rewrite (inclusion_deltas_ops Hce HokP), (inactivity_deltas0_ops Hce Hroot HokP).
+    reflexivity.
+  Qed.
+
+  Lemma Z_length : length Z = n. Proof. unfold Z, zeros, nvals. apply repeat_length. Qed.
+  Lemma arr_length o : length (foldops o Z) = n. Proof. rewrite foldops_length. apply Z_length. Qed.
+  Lemma Z_entry j : entry Z j = 0.
+  Proof.
+    unfold entry, Z, zeros. rewrite nthN_nth_error. destruct (nth_error (repeat 0 (nvals st)) (N.to_nat j)) as [x|] eqn:Hx; [|reflexivity].
+    apply nth_error_In in Hx. apply repeat_spec in Hx. exact Hx.
+  Qed.
+  Lemma entry_oob l j : N.of_nat (length l) <= j -> entry l j = 0.
+  Proof. intros H. unfold entry. rewrite nthN_nth_error. destruct (nth_error l (N.to_nat j)) eqn:Hx; [|reflexivity]. assert (N.to_nat j < length l)%nat by (apply nth_error_Some; congruence). lia. Qed.
+
+  Lemma sum4_entry a b c0 d e j :
+    length a = n -> length b = n -> length c0 = n -> length d = n -> length e = n ->
+    entry (add_lists (add_lists (add_lists (add_lists a b) c0) d) e) j = entry a j + entry b j + entry c0 j + entry d j + entry e j /\
+    length (add_lists (add_lists (add_lists (add_lists a b) c0) d) e) = n.
+  Proof.
+    intros La Lb Lc Ld Le.
+    assert (L1 : length (add_lists a b) = n) by (rewrite add_lists_length; congruence).
+    assert (L2 : length (add_lists (add_lists a b) c0) = n) by (rewrite add_lists_length; congruence).
+    assert (L3 : length (add_lists (add_lists (add_lists a b) c0) d) = n) by (rewrite add_lists_length; congruence).
+    split; [|rewrite add_lists_length; congruence].
+    rewrite (add_lists_entry _ e) by congruence. rewrite (add_lists_entry _ d) by congruence.
+    rewrite (add_lists_entry _ c0) by congruence. rewrite (add_lists_entry a b) by congruence. reflexivity.
+  Qed.
+  Lemma Rall_entry j : entry Rall j = entry Rs j + entry Rt j + entry Rh j + entry Rd j.
+  Proof.
+    unfold Rall. destruct (sum4_entry Rs Rt Rh Rd Z j) as [H _]; try apply arr_length; try apply Z_length.
+    rewrite H, Z_entry. lia.
+  Qed.
+  Lemma Pall_entry j : entry Pall j = entry Ps j + entry Pt j + entry Ph j + entry Pi j.
+  Proof.
+    unfold Pall. destruct (sum4_entry Ps Pt Ph Z Pi j) as [H _]; try apply arr_length; try apply Z_length.
+    rewrite H, Z_entry. lia.
+  Qed.
+  Lemma Rall_length : length Rall = n.
+  Proof. unfold Rall. destruct (sum4_entry Rs Rt Rh Rd Z 0) as [_ H]; try apply arr_length; try apply Z_length. exact H. Qed.
+  Lemma Pall_length : length Pall = n.
+  Proof. unfold Pall. destruct (sum4_entry Ps Pt Ph Z Pi 0) as [_ H]; try apply arr_length; try apply Z_length. exact H. Qed.
+
+  Lemma rows_bound j : j < N.of_nat n -> entry (balances st) j + entry Rall j < two64 /\ entry Pall j < two64.
+  Proof. intros Hj. exact (pb_rows HB Rall Pall spec_deltas_form j Hj). Qed.
+  (* every component entry is below 2^64 *)
+  Lemma comp_entry_bound (arr : list N) j :
+    length arr = n -> (forall k, k < N.of_nat n -> entry arr k <= entry Rall k \/ entry arr k <= entry Pall k) -> entry arr j < two64.
+  Proof.
+    intros Hl Hle. destruct (N.lt_ge_cases j (N.of_nat n)) as [Hj|Hj].
+    - destruct (rows_bound j Hj) as [H1 H2]. destruct (Hle j Hj); lia.
+    - rewrite entry_oob by (rewrite Hl; exact Hj). unfold two64. lia.
+  Qed.
+
+  (* ---------- zrnt's five Deltas are these arrays ---------- *)
+  Lemma go_array_eq (g : elt -> ops) (h : N -> ops) :
+    (forall i v, nthN (validators st) i = Some v -> i < N.of_nat n -> g (elt_at i v) = h i) ->
+    (forall k, k < N.of_nat n -> entry (foldops (flat_map h (seqN 0 n)) Z) k <= entry Rall k \/
+                                 entry (foldops (flat_map h (seqN 0 n)) Z) k <= entry Pall k) ->
+    foldops64 (flat_map g go_list) Z = foldops (flat_map h (seqN 0 n)) Z.
+  Proof.
+    intros Hgh Hle. rewrite (go_list_flat_map g h Hgh). apply foldops64_eq. intros j.
+    apply comp_entry_bound; [apply arr_length|exact Hle].
+  Qed.
+
+  Lemma sel_eqs i :
+    (f_ps E st i && un st i = selS i) /\ (f_pt E st i && un st i = selTg i) /\ (f_ph E st i && un st i = selH i).
+  Proof.
+    unfold selS, selTg, selH. rewrite unsl_sel_target, unsl_sel_head. unfold unsl_sel, f_ps, f_pt, f_ph, un. fold rootP.
+    repeat split; apply andb_comm.
+  Qed.
+
+  Variable epc : EpcView.
+  Hypothesis Hepc_total : epc_total_active_stake epc = total.
+  Hypothesis Hepc_prev : epc_prev_epoch epc = pe.
+  Hypothesis Hepc_cur : epc_cur_epoch epc = ce.
+  Variable ad : Phase0AttesterData.
+  Hypothesis Had_st : p0_statuses ad = statuses_of E st (flatten_validators (validators st)).
+  Hypothesis Had_fl : p0_flats ad = flatten_validators (validators st).
+  Hypothesis Had_s : p0_prev_source_stake ad = N.max INC (sel_sum0 st (fun i => f_ps E st i && un st i) 0 n).
+  Hypothesis Had_t : p0_prev_target_stake ad = N.max INC (sel_sum0 st (fun i => f_ps E st i && un st i && f_pt E st i) 0 n).
+  Hypothesis Had_h : p0_prev_head_stake ad = N.max INC (sel_sum0 st (fun i => f_ps E st i && un st i && f_pt E st i && f_ph E st i) 0 n).
+
+  (* target / head attesters are source attesters *)
+  Lemma pt_ps i : f_pt E st i = true -> f_ps E st i = true.
+  Proof.
+    unfold f_pt, f_ps. intros H. apply existsb_exists in H. destruct H as [a [Ha Hc]]. apply andb_prop in Hc.
+    apply existsb_exists. exists a. split; [exact Ha|apply Hc].
+  Qed.
+  Lemma ph_pt i : f_ph E st i = true -> f_pt E st i = true.
+  Proof.
+    unfold f_ph, f_pt. intros H. apply existsb_exists in H. destruct H as [a [Ha Hc]]. apply andb_prop in Hc. destruct Hc as [Hc _].
+    apply existsb_exists. exists a. split; [exact Ha|exact Hc].
+  Qed.
+  Lemma stake_t_eq : sel_sum0 st (fun i => f_ps E st i && un st i && f_pt E st i) 0 n = sel_sum0 st (fun i => f_pt E st i && un st i) 0 n.
+  Proof.
+    apply sel_sum0_ext. intros i. destruct (f_pt E st i) eqn:Hpt; [rewrite (pt_ps i Hpt)|]; destruct (f_ps E st i), (un st i); reflexivity.
+  Qed.
+  Lemma stake_h_eq : sel_sum0 st (fun i => f_ps E st i && un st i && f_pt E st i && f_ph E st i) 0 n = sel_sum0 st (fun i => f_ph E st i && un st i) 0 n.
+  Proof.
+    apply sel_sum0_ext. intros i. destruct (f_ph E st i) eqn:Hph; [rewrite (ph_pt i Hph), (pt_ps i (ph_pt i Hph))|];
+      destruct (f_ps E st i), (f_pt E st i), (un st i); reflexivity.
+  Qed.
+
+  Lemma go_deltas_form :
+    attestation_rewards_and_penalties c epc ad st =
+    Some (mkD5 (mkDeltas Rs Ps) (mkDeltas Rt Pt) (mkDeltas Rh Ph) (mkDeltas Rd Z) (mkDeltas Z Pi)).
+  Proof.
+    unfold attestation_rewards_and_penalties. rewrite Hepc_total, Hepc_prev. destruct (N.eqb_spec INC 0); [contradiction|].
+    rewrite (sub64_ge pe _ Hfin). change (pe - cp_epoch (finalized_checkpoint st)) with fd.
+    assert (Hleak : (MIN_EPOCHS_TO_INACTIVITY_PENALTY c <? fd) = leak) by reflexivity. rewrite Hleak.
+    fold T sq q. rewrite Had_st, Had_fl. fold go_list.
+    assert (Hlen : length (statuses_of E st (flatten_validators (validators st))) = n).
+    { unfold statuses_of. rewrite imap_length. unfold flatten_validators. apply map_length. }
+    rewrite Hlen.
+    rewrite go_rewards_loop; try exact sq_pos; try exact T_pos; try exact (pb_prq HB); try exact (pb_quot HB).
+    2:{ intros x Hx Hsu. cbn [d5_inclusion d_rewards new_deltas]. rewrite repeat_length. apply go_list_side; assumption. }
+    unfold d5_apply, new_deltas. cbn [d5_source d5_target d5_head d5_inclusion d5_inactivity d_rewards d_penalties].
+    change (repeat 0 n) with Z. rewrite Had_s, Had_t, Had_h, stake_t_eq, stake_h_eq.
+    f_equal.
+    (* the eight arrays *)
+    assert (HS : forall i v, nthN (validators st) i = Some v -> i < N.of_nat n ->
+              e_comp_r c T sq leak e_su (N.max INC (sel_sum0 st (fun i => f_ps E st i && un st i) 0 n) / INC) (elt_at i v) = comp_ops_r selS (bal_of selS) i /\
+              e_comp_p c sq e_su (elt_at i v) = comp_ops_p selS i).
+    { intros i v Hv Hi. apply (comp_ops_eq e_su selS (fun i => f_ps E st i && un st i) i v Hv Hi).
+      - apply (elt_flags i v Hv).
+      - intros j. apply (sel_eqs j). }
+    assert (HT : forall i v, nthN (validators st) i = Some v -> i < N.of_nat n ->
+              e_comp_r c T sq leak e_tu (N.max INC (sel_sum0 st (fun i => f_pt E st i && un st i) 0 n) / INC) (elt_at i v) = comp_ops_r selTg (bal_of selTg) i /\
+              e_comp_p c sq e_tu (elt_at i v) = comp_ops_p selTg i).
+    { intros i v Hv Hi. apply (comp_ops_eq e_tu selTg (fun i => f_pt E st i && un st i) i v Hv Hi).
+      - apply (elt_flags i v Hv).
+      - intros j. apply (sel_eqs j). }
+    assert (HH : forall i v, nthN (validators st) i = Some v -> i < N.of_nat n ->
+              e_comp_r c T sq leak e_hu (N.max INC (sel_sum0 st (fun i => f_ph E st i && un st i) 0 n) / INC) (elt_at i v) = comp_ops_r selH (bal_of selH) i /\
+              e_comp_p c sq e_hu (elt_at i v) = comp_ops_p selH i).
+    { intros i v Hv Hi. apply (comp_ops_eq e_hu selH (fun i => f_ph E st i && un st i) i v Hv Hi).
+      - apply (elt_flags i v Hv).
+      - intros j. apply (sel_eqs j). }
+    f_equal; f_equal.
+    - apply go_array_eq; [intros i v Hv Hi; apply (HS i v Hv Hi)|]. intros k _. left. rewrite Rall_entry. fold Rs. lia.
+    - apply go_array_eq; [intros i v Hv Hi; apply (HS i v Hv Hi)|]. intros k _. right. rewrite Pall_entry. fold Ps. lia.
+    - apply go_array_eq; [intros i v Hv Hi; apply (HT i v Hv Hi)|]. intros k _. left. rewrite Rall_entry. fold Rt. lia.
+    - apply go_array_eq; [intros i v Hv Hi; apply (HT i v Hv Hi)|]. intros k _. right. rewrite Pall_entry. fold Pt. lia.
+    - apply go_array_eq; [intros i v Hv Hi; apply (HH i v Hv Hi)|]. intros k _. left. rewrite Rall_entry. fold Rh. lia.
+    - apply go_array_eq; [intros i v Hv Hi; apply (HH i v Hv Hi)|]. intros k _. right. rewrite Pall_entry. fold Ph. lia.
+    - apply go_array_eq; [intros i v Hv Hi; apply incl_ops_eq; assumption|]. intros k _. left. rewrite Rall_entry. fold Rd. lia.
+    - apply go_array_eq; [intros i v Hv Hi; apply inact_ops_eq; assumption|]. intros k _. right. rewrite Pall_entry. fold Pi. lia.
+  Qed.
+
+  (* ---------- summing and applying ---------- *)
+  Hypothesis Hbal_len : length (balances st) = n.
+
+  Lemma entry_nth l j : entry l (N.of_nat j) = nth j l 0.
+  Proof.
+    unfold entry. rewrite nthN_nth_error, Nnat.Nat2N.id. revert j. induction l as [|x l IH]; intros [|j]; cbn [nth_error nth]; try reflexivity. apply IH.
+  Qed.
+  Definition addl64 (a b : list N) : list N := map (fun p => add64 (fst p) (snd p)) (combine a b).
+  Lemma sum5_length a b c0 d e :
+    length a = n -> length b = n -> length c0 = n -> length d = n -> length e = n ->
+    length (addl64 (addl64 (addl64 (addl64 (addl64 (repeat 0 n) a) b) c0) d) e) = n.
+  Proof.
+    intros La Lb Lc Ld Le. unfold addl64.
+    assert (L0 : length (map (fun p => add64 (fst p) (snd p)) (combine (repeat 0 n) a)) = n) by (rewrite add_lists64_length; rewrite repeat_length; congruence).
+    assert (L1 : length (map (fun p => add64 (fst p) (snd p)) (combine (map (fun p => add64 (fst p) (snd p)) (combine (repeat 0 n) a)) b)) = n)
+      by (rewrite add_lists64_length; congruence).
+    assert (L2 : length (map (fun p => add64 (fst p) (snd p)) (combine (map (fun p => add64 (fst p) (snd p)) (combine (map (fun p => add64 (fst p) (snd p)) (combine (repeat 0 n) a)) b)) c0)) = n)
+      by (rewrite add_lists64_length; congruence).
+    assert (L3 : length (map (fun p => add64 (fst p) (snd p)) (combine (map (fun p => add64 (fst p) (snd p)) (combine (map (fun p => add64 (fst p) (snd p)) (combine (map (fun p => add64 (fst p) (snd p)) (combine (repeat 0 n) a)) b)) c0)) d)) = n)
+      by (rewrite add_lists64_length; congruence).
+    rewrite add_lists64_length; congruence.
+  Qed.
+  Lemma sum5_nth a b c0 d e j :
+    length a = n -> length b = n -> length c0 = n -> length d = n -> length e = n -> (j < n)%nat ->
+    nth j (addl64 (addl64 (addl64 (addl64 (addl64 (repeat 0 n) a) b) c0) d) e) 0 =
+      add64 (add64 (add64 (add64 (add64 0 (nth j a 0)) (nth j b 0)) (nth j c0 0)) (nth j d 0)) (nth j e 0) /\
+    length (addl64 (addl64 (addl64 (addl64 (addl64 (repeat 0 n) a) b) c0) d) e) = n.
+  Proof.
+    intros La Lb Lc Ld Le Hj. unfold addl64.
+    assert (L0 : length (map (fun p => add64 (fst p) (snd p)) (combine (repeat 0 n) a)) = n) by (rewrite add_lists64_length; rewrite repeat_length; congruence).
+    assert (L1 : length (map (fun p => add64 (fst p) (snd p)) (combine (map (fun p => add64 (fst p) (snd p)) (combine (repeat 0 n) a)) b)) = n)
+      by (rewrite add_lists64_length; congruence).
+    assert (L2 : length (map (fun p => add64 (fst p) (snd p)) (combine (map (fun p => add64 (fst p) (snd p)) (combine (map (fun p => add64 (fst p) (snd p)) (combine (repeat 0 n) a)) b)) c0)) = n)
+      by (rewrite add_lists64_length; congruence).
+    assert (L3 : length (map (fun p => add64 (fst p) (snd p)) (combine (map (fun p => add64 (fst p) (snd p)) (combine (map (fun p => add64 (fst p) (snd p)) (combine (map (fun p => add64 (fst p) (snd p)) (combine (repeat 0 n) a)) b)) c0)) d)) = n)
+      by (rewrite add_lists64_length; congruence).
+    split; [|rewrite add_lists64_length; congruence].
+    rewrite add_lists64_nth by (try congruence; rewrite L3; exact Hj).
+    rewrite add_lists64_nth by (try congruence; rewrite L2; exact Hj).
+    rewrite add_lists64_nth by (try congruence; rewrite L1; exact Hj).
+    rewrite add_lists64_nth by (try congruence; rewrite L0; exact Hj).
+    rewrite add_lists64_nth by (rewrite repeat_length; try congruence; exact Hj).
+    rewrite nth_repeat0. reflexivity.
+  Qed.
+
+  Theorem phase0_rewards_refines_inner :
+    process_epoch_rewards_and_penalties0 c epc ad st = Epoch.process_rewards_and_penalties E Phase0 st.
+  Proof.
+    unfold process_epoch_rewards_and_penalties0, Epoch.process_rewards_and_penalties. rewrite Hepc_cur. fold ce.
+    destruct (N.eqb_spec ce GENESIS_EPOCH) as [Hz|_]; [unfold GENESIS_EPOCH in *; lia|].
+    rewrite go_deltas_form, spec_deltas_form. cbn [d5_source d5_target d5_head d5_inclusion d5_inactivity].
+    assert (Hlen : length (p0_statuses ad) = n).
+    { rewrite Had_st. unfold statuses_of. rewrite imap_length. unfold flatten_validators. apply map_length. }
+    rewrite Hlen. unfold deltas_add, new_deltas. cbn [d_rewards d_penalties].
+    fold (addl64 (repeat 0 n) Rs). fold (addl64 (addl64 (repeat 0 n) Rs) Rt). fold (addl64 (addl64 (addl64 (repeat 0 n) Rs) Rt) Rh).
+    fold (addl64 (addl64 (addl64 (addl64 (repeat 0 n) Rs) Rt) Rh) Rd). fold (addl64 (addl64 (addl64 (addl64 (addl64 (repeat 0 n) Rs) Rt) Rh) Rd) Z).
+    fold (addl64 (repeat 0 n) Ps). fold (addl64 (addl64 (repeat 0 n) Ps) Pt). fold (addl64 (addl64 (addl64 (repeat 0 n) Ps) Pt) Ph).
+    fold (addl64 (addl64 (addl64 (addl64 (repeat 0 n) Ps) Pt) Ph) Z). fold (addl64 (addl64 (addl64 (addl64 (addl64 (repeat 0 n) Ps) Pt) Ph) Z) Pi).
+    set (RG := addl64 (addl64 (addl64 (addl64 (addl64 (repeat 0 n) Rs) Rt) Rh) Rd) Z).
+    set (PG := addl64 (addl64 (addl64 (addl64 (addl64 (repeat 0 n) Ps) Pt) Ph) Z) Pi).
+    assert (LRs : length Rs = n) by apply arr_length. assert (LRt : length Rt = n) by apply arr_length.
+    assert (LRh : length Rh = n) by apply arr_length. assert (LRd : length Rd = n) by apply arr_length.
+    assert (LPs : length Ps = n) by apply arr_length. assert (LPt : length Pt = n) by apply arr_length.
+    assert (LPh : length Ph = n) by apply arr_length. assert (LPi : length Pi = n) by apply arr_length.
+    assert (LZ : length Z = n) by apply Z_length.
+    assert (LRG : length RG = n) by (apply sum5_length; assumption).
+    assert (LPG : length PG = n) by (apply sum5_length; assumption).
+    unfold apply_deltas_go. cbn [d_rewards d_penalties]. rewrite LRG, LPG, Hbal_len, Nat.eqb_refl. cbn [negb orb].
+    unfold apply_deltas. cbn [fst snd]. f_equal.
+    assert (Hbals : map (fun x => let '(b, (r, p)) := x in let b := add64 b r in if p <=? b then b - p else 0)
+                        (combine (balances st) (combine RG PG)) = apply1 (balances st) Rall Pall).
+    { apply list_eq_nth.
+      - rewrite map_length, !combine_length, apply1_length; rewrite ?Rall_length, ?Pall_length; lia.
+      - intros j Hj. rewrite map_length, !combine_length in Hj. assert (Hjn : (j < n)%nat) by lia.
+        rewrite apply1_nth by (rewrite ?Rall_length, ?Pall_length; lia).
+        assert (Hgo : forall Bl Rl Pl, length Rl = length Bl -> length Pl = length Bl -> (j < length Bl)%nat ->
+                  nth j (map (fun x => let '(b, (r, p)) := x in let b := add64 b r in if p <=? b then b - p else 0) (combine Bl (combine Rl Pl))) 0 =
+                  (let b := add64 (nth j Bl 0) (nth j Rl 0) in if nth j Pl 0 <=? b then b - nth j Pl 0 else 0)).
+        { clear. intros Bl. revert j. induction Bl as [|b Bl IH]; intros j [|r Rl] [|p Pl] Hr Hp Hj; cbn [length] in *; try lia.
+          destruct j as [|j]; [reflexivity|]. cbn [combine map nth]. apply IH; lia. }
+        rewrite Hgo by lia. unfold RG, PG.
+        destruct (sum5_nth Rs Rt Rh Rd Z j LRs LRt LRh LRd LZ Hjn) as [HR _]. destruct (sum5_nth Ps Pt Ph Z Pi j LPs LPt LPh LZ LPi Hjn) as [HP _].
+        rewrite HR, HP. clear HR HP.
+        destruct (rows_bound (N.of_nat j) ltac:(lia)) as [Hb1 Hb2]. rewrite Rall_entry in Hb1. rewrite Pall_entry in Hb2.
+        rewrite <- !entry_nth. rewrite Rall_entry, Pall_entry, Z_entry.
+        set (b := entry (balances st) (N.of_nat j)) in *.
+        set (a0 := entry Rs (N.of_nat j)) in *. set (a1 := entry Rt (N.of_nat j)) in *. set (a2 := entry Rh (N.of_nat j)) in *. set (a3 := entry Rd (N.of_nat j)) in *.
+        set (q0 := entry Ps (N.of_nat j)) in *. set (q1 := entry Pt (N.of_nat j)) in *. set (q2 := entry Ph (N.of_nat j)) in *. set (q3 := entry Pi (N.of_nat j)) in *.
+        rewrite (add64_nw 0 a0) by lia. rewrite (add64_nw (0 + a0) a1) by lia. rewrite (add64_nw (0 + a0 + a1) a2) by lia.
+        rewrite (add64_nw (0 + a0 + a1 + a2) a3) by lia. rewrite (add64_nw (0 + a0 + a1 + a2 + a3) 0) by lia.
+        rewrite (add64_nw 0 q0) by lia. rewrite (add64_nw (0 + q0) q1) by lia. rewrite (add64_nw (0 + q0 + q1) q2) by lia.
+        rewrite (add64_nw (0 + q0 + q1 + q2) 0) by lia. rewrite (add64_nw (0 + q0 + q1 + q2 + 0) q3) by lia.
+        rewrite (add64_nw b) by lia. cbv zeta.
+        destruct (N.leb_spec (0 + q0 + q1 + q2 + 0 + q3) (b + (0 + a0 + a1 + a2 + a3 + 0))); lia. }
+    exact (f_equal (fun x => st <| balances := x |>) Hbals).
+  Qed.
+End P0Deltas.
+
+(* ================= the assembled theorems ================= *)
+Theorem phase0_rewards_refines (E : Env) (st : BeaconState) (committee_of : N -> N -> option (list N)) (epc : EpcView) :
+  P0Hyps E st committee_of epc ->
+  P0Bounds E st ->
+  N.of_nat (length (validators st)) < max64 ->
+  cp_epoch (finalized_checkpoint st) <= get_previous_epoch E st ->
+  exists ad,
+    compute_epoch_attester_data0 (cfg E) committee_of epc (flatten_validators (validators st)) st = Some ad /\
+    process_epoch_rewards_and_penalties0 (cfg E) epc ad st = Epoch.process_rewards_and_penalties E Phase0 st.
+Proof.
+  intros HH HB Hn Hfin.
+  destruct (phase0_attester_data_refines E st committee_of epc HH) as [ad [Hc [H1 [H2 [H3 [H4 [H5 [H6 [H7 H8]]]]]]]]].
+  exists ad. split; [exact Hc|].
+  pose proof HH as [Hce Hpe Hcue Htot Hspe Hsphr Hrl Hstart Hrp Hrc Hpok Hcok Hbl Hinc Hpe1 Hsum].
+  assert (Hpe_le : get_previous_epoch E st * SLOTS_PER_EPOCH (cfg E) < two64).
+  { unfold get_previous_epoch. destruct (get_current_epoch E st =? GENESIS_EPOCH); unfold GENESIS_EPOCH; nia. }
+  destruct (root_at_epoch E st committee_of _ Hspe Hsphr Hrl Hpe_le Hrp) as [rP [HgP _]].
+  eapply phase0_rewards_refines_inner; try eassumption.
+  exists rP. exact HgP.
+Qed.
+Print Assumptions phase0_rewards_refines.
+Print Assumptions phase0_attester_data_refines.
+Print Assumptions phase0_stakes_spec.
